@@ -528,8 +528,28 @@ def gen(seed, n, mut_cap=24):
     return out[:n]
 
 
+def gen_exhaustive(maxlen=4, alphabet=b" \n\r$:|@#a{}=\t", contexts=None):
+    """every string over `alphabet` of length <= maxlen, placed (i) as a whole file, (ii) as
+    the tail of a variable value, (iii) as the tail of a build line after a valid rule.
+    Ties the hand-written scanners to the generated src/lexer.cc on short inputs."""
+    import itertools
+    if contexts is None:
+        contexts = [b"", b"x = ", b"rule r\n command = c\nbuild "]
+    out = []
+    for n in range(maxlen + 1):
+        for t in itertools.product(alphabet, repeat=n):
+            s = bytes(t)
+            for c in contexts:
+                out.append(scenario(b"build.ninja", [(b"build.ninja", c + s)]))
+    return out
+
+
 if __name__ == "__main__":
-    seed = int(sys.argv[1]) if len(sys.argv) > 1 else 1
-    n = int(sys.argv[2]) if len(sys.argv) > 2 else 100
-    for l in gen(seed, n):
-        print(l)
+    if len(sys.argv) > 1 and sys.argv[1] == "exhaustive":
+        for l in gen_exhaustive(int(sys.argv[2]) if len(sys.argv) > 2 else 4):
+            print(l)
+    else:
+        seed = int(sys.argv[1]) if len(sys.argv) > 1 else 1
+        n = int(sys.argv[2]) if len(sys.argv) > 2 else 100
+        for l in gen(seed, n):
+            print(l)
